@@ -1037,3 +1037,34 @@ M('C12','stack-pop-rlock','ds/stack/threadsafe_stack.go','''func (s *threadSafeS
 	defer s.mutex.Unlock()''','''func (s *threadSafeStack[T]) Pop() (value T, exists bool) {
 	s.mutex.RLock()
 	defer s.mutex.RUnlock()''','lock/guarded-by threadSafeStack.stack in ds/stack.threadSafeStack.Pop')
+
+# ---------------- C19
+M('C19','safediv-no-min-guard','core/safemath/safe_math.go','''	if minusOne := ^T(0); minusOne < 0 && y == minusOne && x != 0 && x == -x {
+		return 0, ierrors.WithMessagef(ErrIntegerOverflow, "%d / %d", x, y)
+	}
+''','','signed-div/guarded x / y in core/safemath.SafeDiv')
+M('C19','safemul-no-min-guard','core/safemath/safe_math.go','''	if minusOne := ^T(0); minusOne < 0 && x == minusOne && y == -y {
+		return 0, ierrors.WithMessagef(ErrIntegerOverflow, "%d * %d", x, y)
+	}
+''','','signed-div/guarded result / x in core/safemath.SafeMul')
+M('C19','new-signed-division','core/safemath/safe_math.go','''func SafeLeftShift[T Integer](val T, shift uint8) (T, error) {''','''func SafeHalf[T Integer](val T, by T) T {
+	if by == 0 {
+		return 0
+	}
+
+	return val / by
+}
+
+func SafeLeftShift[T Integer](val T, shift uint8) (T, error) {''','signed-div/guarded val / by in core/safemath.SafeHalf')
+M('C19','silent-guard-literal-form','core/safemath/safe_math.go','''	if minusOne := ^T(0); minusOne < 0 && y == minusOne && x != 0 && x == -x {
+		return 0, ierrors.WithMessagef(ErrIntegerOverflow, "%d / %d", x, y)
+	}
+''','''	minusOne := ^T(0)
+	if y == minusOne && minusOne < 0 {
+		if x != 0 && x == -x {
+			return 0, ierrors.WithMessagef(ErrIntegerOverflow, "%d / %d", x, y)
+		}
+
+		return -x, nil
+	}
+''','',silent=True)
